@@ -30,10 +30,14 @@ def cells(tier, seed):
         three = [p for p in R.programs(3) if len(p) == 3]
         rng.shuffle(three)
         progs = progs + three[:500]
-    progs = list(progs) + [('fromAd',), ('fromAd', 'A>B'), ('A>B', 'fromAd'), ('fromAd', 'dilA')]
+    progs = list(progs) + [('fromAd',), ('fromAd', 'A>B'), ('A>B', 'fromAd'), ('fromAd', 'dilA'), ('sol2',), ('A>B', 'sol2')]
     for prog in progs:
         out.append({'id': 'prog/' + ','.join(prog), 'fn': 'h_prog', 'round': 'lite', 'max_paths': 400,
                     'cost': 2 ** len(prog), 'params': {'prog': list(prog)}})
+    # the stock container A in a vessel of finite capacity (1 L): what a step creates from it must not inherit that
+    for prog in [('fromA',), ('fromAd',), ('solA',), ('dilA',), ('A>B',), ('fromA', 'A>B')]:
+        out.append({'id': 'capA/' + ','.join(prog), 'fn': 'h_prog', 'round': 'lite', 'max_paths': 400,
+                    'cost': 2 ** len(prog), 'params': {'prog': list(prog), 'a_cap': '1000 mL'}})
     return out
 
 
@@ -120,3 +124,9 @@ def h_prog(h):
                 h.require('same-amounts', h.eq(g.contents[s], w.contents[s], h.rs(4 * h.ulp)), region,
                           detail=f"{name}/{g.name}: amount of {s.name} after bake vs after the eager fold")
             h.require('same-volume', h.eq(g.volume, w.volume, h.rs(4 * h.ulp)), region, detail=f"{name}/{g.name}: volume")
+            gm, wm = g.max_volume, w.max_volume
+            if isinstance(gm, (int, float)) and isinstance(wm, (int, float)):
+                cap_ok = h.true(gm == wm)
+            else:
+                cap_ok = h.eq(gm, wm)
+            h.require('same-capacity', cap_ok, region, detail=f"{name}/{g.name}: capacity after bake {gm} vs after the eager fold {wm}")
